@@ -172,3 +172,34 @@ package main
 //@ func createRouteHandler$1
 //@   callpre (http.ResponseWriter).WriteHeader local(err) != nil ==> arg1 >= 400 && arg1 < 500
 //@   callpre glyph.writeInternalError arg0 == ctx && local(err) != nil
+
+// ---- declared input type on compiled routes (C07): `input` is bound only after the body (or its absence) has been checked
+// ---- against the declared type's required fields - the same reqOK the interpreter's ExecuteRoute is held to
+//@ spec func declC(route *ast.Route) bool = route.InputType != nil && typeis(route.InputType, ast.NamedType) && has(compiledTypeDefs, route.InputType.(ast.NamedType).Name)
+//@ spec func declCTD(route *ast.Route) ast.TypeDef = compiledTypeDefs[route.InputType.(ast.NamedType).Name]
+//@ func interpreter.NewTypeChecker
+//@   trusted
+//@   modifies nothing
+//@   ensures result != nil && fresh(result)
+//@ func (*interpreter.TypeChecker).SetTypeDefs
+//@   trusted
+//@   modifies tc.typeDefs
+//@ func validateCompiledInput
+//@   requires route != nil
+//@   ensures result == nil && declC(route) ==> reqOK(body, declCTD(route))
+//@ func createCompiledRouteHandler$1
+//@   assertat "interfaceToValue(bodyMap))" declC(route) ==> reqOK(bodyMap, declCTD(route))
+//@   assertat ", vm.NullValue{})" declC(route) ==> reqOK(nil, declCTD(route))
+// a declared return type: the value a compiled route produced is encoded only if it is acceptable for the declared type
+// (retOK: the compiled-side counterpart of the interpreter's checkOK; nothing in the handler establishes it)
+//@ spec func retOK(v vm.Value, t ast.Type) bool
+//@ func createCompiledRouteHandler$1
+//@   assertat "return json.NewEncoder(ctx.ResponseWriter).Encode(result)" route.ReturnType != nil ==> retOK(result, route.ReturnType)
+// the check itself: the declared type and the module's type table are what CheckType is given; that "CheckType accepted the
+// decoded JSON form" means "the value is acceptable" (retOK) is a summary, not verified (JSON round trip not modelled)
+//@ func validateCompiledReturn
+//@   modifies nothing
+//@   callpre (*interpreter.TypeChecker).CheckType arg2 == route.ReturnType
+//@   callpre (*interpreter.TypeChecker).SetTypeDefs arg1 == compiledTypeDefs
+//@   ensures arg0.ReturnType == nil ==> result0 == nil
+//@   summary result0 == nil && route.ReturnType != nil ==> retOK(arg1, route.ReturnType)
